@@ -120,6 +120,14 @@ static std::string run_case(int K, const std::vector<std::string>& ops) {
 			// the stored identity; the identity itself is printed (er=k/tag:...) and compared with the model
 			for (auto& p : ps) { auto sf = cur.find(p.first); if (sf == cur.end()) { oracle_fail("insert(range): key not found"); break; } tc.insert({KeyT(p.first.id, sf->first.tag), p.second}); }
 			ret << "ok"; break; }
+		case 'l': {   // operator=(std::initializer_list<value_type>) with 0..2 pairs
+			std::vector<std::pair<KeyT, i64>> ps;
+			for (size_t q = 0; q + 1 < a.size(); q += 2) ps.push_back({KeyT((int)a[q], 0), a[q + 1]});
+			if (ps.empty()) cur = std::initializer_list<typename UM::value_type>{};
+			else if (ps.size() == 1) cur = { {ps[0].first, ps[0].second} };
+			else cur = { {ps[0].first, ps[0].second}, {ps[1].first, ps[1].second} };
+			tc.clear(); for (size_t q = 0; q < ps.size() && q < 2; ++q) { auto tf = tc.find(ps[q].first); tc.insert({tf != tc.end() ? tf->first : ps[q].first, ps[q].second}); }
+			ret << "ok"; break; }
 		case 'h': {   // emplace_hint(hint, key, value)
 			auto it = cur.emplace_hint(cur.begin(), KeyT((int)a[0], 0), a[1]);
 			if (it->first.id != (int)a[0] || it->second != a[1]) oracle_fail("emplace_hint: returned iterator");
